@@ -100,6 +100,14 @@ def specs(draw, max_steps=25, server=True):
                 named_kd = [(k, d) for k, d in sig if k not in ("va", "vk")]
                 with_default = [i for i, (k, d) in enumerate(named_kd) if d]
                 elsewhere = [v for v in vals if v != "DEFAULT"] + list(src["xpos"]) + [v for _, v in src["xkw"]]
+                ko_def = [i for i, (k, d) in enumerate(named_kd) if d and k == "ko"]
+                if ko_def and src["xpos"] and draw(st.integers(0, 1)) == 0:
+                    # f(1, 5, 7) vs f(1, 5, 7, scale=5): a keyword-only default against the surplus positional of the same rank
+                    j = draw(st.integers(0, len(ko_def) - 1))
+                    i = ko_def[j]
+                    vals[i] = "DEFAULT" if vals[i] != "DEFAULT" else src["xpos"][min(j, len(src["xpos"]) - 1)]
+                    bank.append({"vals": vals, "xpos": src["xpos"], "xkw": src["xkw"]})
+                    continue
                 if with_default and elsewhere and draw(st.integers(0, 3)) == 0:
                     # a defaulted parameter toggles between its default and a value that already occurs elsewhere in the
                     # call (another argument, a surplus positional, an extra keyword): f(1, 5, 7) vs f(1, 5, 7, scale=5)
